@@ -436,6 +436,16 @@ def annotate_loops(text, loops, labels, unit_name, fn_name):
         kind, kw_off, brace_off = found[ordinal]
         if "kind" in spec and spec["kind"] != kind:
             raise ExtractError("loop #%d in %s is `%s`, sidecar expects `%s`" % (ordinal, fn_name, kind, spec["kind"]))
+        if spec.get("expect"):
+            # the invariants are written for a particular loop: its text must still contain what identifies it, otherwise the
+            # ordinals have shifted (a loop was added or removed) and the unit is undecided rather than mis-annotated
+            sub = text[brace_off:]
+            toks = lex.code_tokens(sub)
+            body_end = brace_off + toks[lex.match_close(sub, toks, 0)][2]
+            if not re.search(spec["expect"], text[kw_off:body_end]):
+                raise ExtractError("lost anchor: loop #%d in %s no longer contains /%s/ (loops added or removed?)" % (ordinal, fn_name, spec["expect"]))
+        if len(found) != spec.get("n_loops", len(found)):
+            raise ExtractError("lost anchor: %s has %d loops, sidecar expects %d" % (fn_name, len(found), spec["n_loops"]))
         chunk = []
         for key in ("invariant_except_break", "invariant", "ensures"):
             if spec.get(key):
